@@ -72,6 +72,8 @@ class Block:
         self.rewrites = []  # (from_tokens_text, to_text, nth or None)
         self.spec = ""
         self.ats = []  # (kind, anchor, nth, text)
+        self.droparms = []  # (pattern_start_seq, replacement_text)
+        self.dropscan = []  # identifiers (prefix match) that must NOT occur in dropped text
 
 
 def parse_template(path):
@@ -120,10 +122,19 @@ def parse_template(path):
                         b.rewrites.append((json.loads(m.group(1)), json.loads(m.group(2)),
                                            int(m.group(3)) if m.group(3) else None))
                         mode = None
+                    elif s2.startswith("//@droparm"):
+                        m = re.match(r'//@droparm\s+("(?:[^"\\]|\\.)*")\s*=>\s*("(?:[^"\\]|\\.)*")', s2)
+                        if not m:
+                            raise ValueError("%s:%d bad droparm" % (path, i + 1))
+                        b.droparms.append((json.loads(m.group(1)), json.loads(m.group(2))))
+                        mode = None
+                    elif s2.startswith("//@dropscan"):
+                        b.dropscan = s2[len("//@dropscan"):].split()
+                        mode = None
                     elif s2.startswith("//@spec"):
                         mode = "spec"
                     elif s2.startswith("//@at"):
-                        m = re.match(r'//@at\s+(before|after|loop|loop-body|body-start|body-end)(?:\s+("(?:[^"\\]|\\.)*"))?(?:\s+nth=(\d+))?', s2)
+                        m = re.match(r'//@at\s+(before|after|loop-body|loop|body-start|body-end)(?:\s+("(?:[^"\\]|\\.)*"))?(?:\s+nth=(\d+))?', s2)
                         if not m:
                             raise ValueError("%s:%d bad //@at" % (path, i + 1))
                         mode = (m.group(1), json.loads(m.group(2)) if m.group(2) else None,
@@ -201,6 +212,38 @@ def extract_block(b, sources, scratch, canary=False):
     orig_line = src.count("\n", 0, it.toks[fn_tok].start) + 1
     rew_report = []
     text = apply_rewrites(text, b.rewrites, rew_report)
+    dropped_texts = []
+    for pat, repl in b.droparms:
+        toks = rsrc.lex(text)
+        seq = rsrc.tok_texts(pat)
+        k = rsrc.find_seq(toks, seq)
+        if k < 0:
+            raise Undecided("lost-anchor: match arm %r not found in fn %s" % (pat, b.args["fn"]))
+        # find `=>` at nesting depth 0 relative to the pattern start
+        j = k
+        while j < len(toks):
+            t = toks[j]
+            if t.kind == "p" and t.text in "([{":
+                j = rsrc.match_close(toks, j)
+            elif t.text == "=" and toks[j + 1].text == ">" and toks[j + 1].start == t.end:
+                break
+            j += 1
+        body = j + 2
+        if toks[body].text != "{":
+            raise Undecided("droparm %r: arm body is not a block" % pat)
+        e = rsrc.match_close(toks, body)
+        if e + 1 < len(toks) and toks[e + 1].text == ",":
+            e += 1
+        a, z = toks[k].start, toks[e].end
+        dropped = text[a:z]
+        dtoks = [t.text for t in rsrc.lex(dropped) if t.kind == "id"]
+        bad = sorted(set(t for t in dtoks for w in b.dropscan if t.startswith(w)))
+        if bad:
+            raise Undecided("syntactic side condition violated: dropped arm %r contains %s" % (pat, bad))
+        dropped_texts.append(dropped)
+        text = text[:a] + repl + text[z:]
+        rew_report.append("match arm %r (%d tokens) replaced by stub %r; token scan of the dropped text for %s: clean"
+                          % (pat, len(rsrc.lex(dropped)), repl, b.dropscan))
     original = text
     toks = rsrc.lex(text)
     body_open = None
